@@ -186,6 +186,18 @@ ROUTES = {
     "rev_all": lambda sm, E, e, v, p: (lambda ld: [ld.component(w) for w in v])(sm.LocatedDifferential(e, p)),
     "diff_at_all": lambda sm, E, e, v, p: (lambda ld: [ld.component(w) for w in v])(sm.Differential(e).at(p)),
     "diff_at_early_all": lambda sm, E, e, v, p: (lambda ld: [ld.component(w) for w in v])(sm.Differential(e, compute_early=True).at(p)),
+    # second order: differentiate the returned expression once more (v = [v1, v2] passed via var/var2 by the caller)
+    "synth2_fwd": lambda sm, E, e, v, p: sm.Partial(sm.Partial(e, v[0]).as_expression(), v[1]).at(p),
+    "synth2_rev": lambda sm, E, e, v, p: sm.LocatedDifferential(
+        sm.Differential(e, compute_early=True).component(v[0]).as_expression(), p).component(v[1]),
+    # structural claims (booleans computed with the library's own ==)
+    "struct_partial_early_late": lambda sm, E, e, v, p: bool(sm.Partial(e, v, compute_early=True).as_expression() == sm.Partial(e, v).as_expression()),
+    "struct_deriv_early_late": lambda sm, E, e, v, p: bool(sm.Derivative(e, compute_early=True).as_expression() == sm.Derivative(e).as_expression()),
+    "struct_diff_early_late": lambda sm, E, e, v, p: bool(sm.Differential(e, compute_early=True).component(v).as_expression() == sm.Differential(e).component(v).as_expression()),
+    "eq_diff_component_partial": lambda sm, E, e, v, p: bool(sm.Differential(e).component(v) == sm.Partial(e, v)) and bool(sm.Differential(e, compute_early=True).component(E.Variable(v)) == sm.Partial(e, v)),
+    "eq_diff_at_located": lambda sm, E, e, v, p: bool(sm.Differential(e).at(p) == sm.LocatedDifferential(e, p)) and bool(sm.Differential(e, compute_early=True).at(p) == sm.LocatedDifferential(e, p)),
+    # the late Differential's component written as an expression, evaluated (companion of struct_diff_early_late)
+    "synth_diff_late": lambda sm, E, e, v, p: sm.Differential(e).component(v).as_expression().at(p),
     # as_expression() must hand back an expression
     "asexp_fwd": lambda sm, E, e, v, p: isinstance(sm.Partial(e, v).as_expression(), sm.Expression),
     "asexp_rev": lambda sm, E, e, v, p: isinstance(sm.Differential(e, compute_early=True).component(v).as_expression(), sm.Expression),
